@@ -18,7 +18,9 @@ TRANS = [np.array(t, dtype=float) for t in (
     (-1e9, 1e9, 1e-3))]
 # (scales within 1e-5 .. 1e-9 of 1: a similarity, not a rigid motion)
 SCALES = [1e-4, 1e-2, 0.5, 1.0, 2.0, 1e2, 1e4, 1.000002, 0.9999998,
-          1.0 + 1e-9]
+          1.0 + 1e-9,
+          # not round in any number of decimals
+          1e-4 / 3.0, 1e-2 / 7.0, 1e4 / 3.0]
 
 
 def rotations(seed):
